@@ -83,3 +83,6 @@ Proof.
   induction l as [|x t IH]; simpl; intros H; [reflexivity|].
   rewrite (H x (or_introl eq_refl)), IH; [reflexivity|]. intros a Ha. apply H. right; exact Ha.
 Qed.
+
+Lemma NoDup_app_r {A : Type} (l1 l2 : list A) : NoDup (l1 ++ l2) -> NoDup l2.
+Proof. induction l1 as [|h t IH]; simpl; intros H; [exact H|]. inversion H; subst. apply IH. assumption. Qed.
